@@ -467,6 +467,10 @@ def run(seed, tier, replay=None):
             if out["outcome"] != "ok":
                 if conform and out["exc"]["cls"] == "ValueError" and "less than or equal to b" in out["exc"]["msg"]:
                     rep.skip("stub_returned_a_vector_that_is_no_distribution")
+                elif conform and F.spec_infeasible(out):
+                    # outside the hypotheses of the model's theorems the documented objective is infinite for a
+                    # whole pass: a conforming exception is what the documentation implies (a repaired tree)
+                    rep.count("conforming_exception_where_the_documented_objective_is_infinite")
                 else:
                     rep.disagree(op="outcome", note="the decision model predicts a returned instance", input=inp,
                                  model="ok", observed=out["exc"])
@@ -552,9 +556,11 @@ def run(seed, tier, replay=None):
                     if f < funs[bi]:
                         bi = j
                 want = F._params_of(case, calls[bi]["result_x"])
+                wantc = F._params_of(case, [min(max(x, b_[0]), b_[1])
+                                            for x, b_ in zip(calls[bi]["result_x"], calls[bi]["bounds"])])
                 r = o_base["result"]
                 keys = "abc" if case["cls"] == "quad" else "abco"
-                if any(not F.feq(r[kk], want[kk]) for kk in keys):
+                if any(not (F.feq(r[kk], want[kk]) or F.feq(r[kk], wantc[kk])) for kk in keys):
                     col.violate(what="the returned distribution is not the lowest-objective optimiser run", input=inp,
                                 expected=want, observed=r)
         for kind, vo, vt in (("perm", o_perm, g["tasks"][1]), ("cens", o_cens, g["tasks"][2])):
